@@ -33,4 +33,6 @@ VARIANTS = [
     V("N-arange-plus-one", A, "            current_end + step * np.arange(1, extra_width + 1)\n        ).astype(coords.dtype)\n        coords = np.concatenate([coords, new_coords])", "            current_end + step * (np.arange(extra_width) + 1)\n        ).astype(coords.dtype)\n        coords = np.concatenate([coords, new_coords])", None),
     V("N-dispatch-le-after-equality-return", A, "    if width < current_width:\n        return crop_dim_width", "    if width <= current_width:\n        return crop_dim_width", None),
     V("N-guard-order", A, "    slice_end = stop\n    if not right_closed:\n        slice_end = stop - eps\n\n    slice_start = start\n    if not left_closed:\n        slice_start = start + eps\n", "    slice_start = start\n    if not left_closed:\n        slice_start = start + eps\n\n    slice_end = stop\n    if not right_closed:\n        slice_end = stop - eps\n", None),
+    # wave 6
+    V("dimattrs-without-str-mixin(G.5)", "src/soundevent/arrays/attributes.py", "class DimAttrs(str, Enum):", "class DimAttrs(Enum):", "G.5"),
 ]
